@@ -265,6 +265,12 @@ def run(pid, tier, replay=None):
 
 def main(pid, tier, replay=None):
     res = run(pid, tier, replay)
+    if pid == "C03" and not replay:
+        # "a compile-time build fails iff the counts differ from %expect / %expect-rr": build
+        # histories over grammars with and without conflicts and declarations, validated against
+        # CTBuild.tla's ExpectOK
+        from . import p_ct
+        p_ct.run(res, "C03", tier)
     res.assumptions += ["the harness reports faithfully what the public API / hooks return",
                         "TLC evaluates the specification correctly",
                         "bounds: instance families and input lengths as listed under coverage"]
